@@ -5,6 +5,7 @@ import (
 	"fmt"
 	"math/rand"
 	"sort"
+	"strings"
 
 	sdk "github.com/cosmos/cosmos-sdk/types"
 
@@ -65,8 +66,10 @@ type Explorer struct {
 	nextID    int
 	Steps     int
 	NPaths    int
-	noise     *noise              // optional concurrent traffic through the same application instance (C07)
-	W2        *World              // optional second application instance (another "process"): C07 compares its results too
+	noise     *noise            // optional concurrent traffic through the same application instance (C07)
+	W2        *World            // optional second application instance (another "process"): C07 compares its results too
+	gasSeen   map[string]uint64 // gas of the last successful execution, by action type (for the abort fault)
+	abortN    int
 	W3        *World              // optional third instance, opened over a committed database like a restarted node (C07)
 	Pairs     map[string]struct{} // distinct (pre-state line, action) pairs are trivially all; kept for distinct (act kind, ok) classes
 }
@@ -129,6 +132,16 @@ func (e *Explorer) apply(pre *Snapshot, parent int, a Action) (*Snapshot, int, e
 	var firstCtx sdk.Context
 	var firstRes TxResult
 	digests := make([]string, 0, reps)
+	if g := e.gasSeen[a.Act]; g > 0 && !strings.HasPrefix(a.Act, "K") {
+		// fault: the same transaction is first run on a throw-away branch with a gas limit below what it needs, so that
+		// it aborts somewhere inside the handler or its hooks. An aborted transaction leaves nothing behind: the
+		// executions that follow must behave as if it had never been attempted.
+		e.abortN++
+		frac := []uint64{30, 55, 75, 90, 97}[e.abortN%5]
+		if _, err := e.W.RunTxLimited(e.W.Ctx(pre), a, g*frac/100+1); err != nil {
+			return pre, 0, err
+		}
+	}
 	for i := 0; i < reps; i++ {
 		b := e.W.Ctx(pre)
 		res, err := e.W.RunTx(b, a)
@@ -137,6 +150,9 @@ func (e *Explorer) apply(pre *Snapshot, parent int, a Action) (*Snapshot, int, e
 		}
 		post := e.W.Dump(b)
 		digests = append(digests, post.Digest(res))
+		if res.OK && res.Gas > 0 {
+			e.gasSeen[a.Act] = res.Gas
+		}
 		if i == 0 {
 			first, firstCtx, firstRes = post, b, res
 		}
@@ -367,7 +383,7 @@ func Explore(w *World, out *vcommon.Writer, o Options) (*Explorer, error) {
 		}
 	}
 	root.needed = true
-	e := &Explorer{NPaths: npaths, W: w, Out: out, Alphabet: o.Alphabet, Reps: o.Reps, RepsAudit: o.RepsAudit, MaxHeight: o.MaxHeight, Pairs: map[string]struct{}{}}
+	e := &Explorer{NPaths: npaths, W: w, Out: out, Alphabet: o.Alphabet, Reps: o.Reps, RepsAudit: o.RepsAudit, MaxHeight: o.MaxHeight, Pairs: map[string]struct{}{}, gasSeen: map[string]uint64{}}
 	if o.Noise && len(o.Alphabet) > 0 {
 		e.noise = startNoise(w, o.Alphabet, o.Seed)
 		defer e.noise.stop()
